@@ -515,6 +515,15 @@ impl PairFam {
     }
     pub fn check_word(&self, word: &[u8], ctx: &mut Ctx) {
         let (a, b) = self.split(word);
+        // history-scaled absolute tolerance for statistics of degree two: eps-level noise relative to the
+        // largest product of two alphabet values (1e-11 on the unit-scale alphabets, 2.5e-3 at 50001)
+        let hmax = self.alpha.iter().flatten().fold(0.0f64, |m, v| m.max(v.abs()));
+        set_abs_tol(1e-12 * hmax * hmax.max(1.0));
+        self.check_word_tol(word, &a, &b, ctx);
+        set_abs_tol(0.0);
+    }
+    fn check_word_tol(&self, word: &[u8], a: &[X], b: &[X], ctx: &mut Ctx) {
+        let (a, b) = (a.to_vec(), b.to_vec());
         if self.name.ends_with("-nan-kinds") {
             if a.iter().chain(b.iter()).any(|v| v.is_none()) {
                 for kind in [1u8, 3] {
